@@ -37,6 +37,8 @@ PROGRAMS = {
     'close_then_spin': "import sys\nprint('x')\nsys.stdout.close()\nwhile spin():\n    pass\n",
     # fails with an exception whose text never finishes computing (student code runs inside pedal's reporting)
     'slow_str': "class Stuck(Exception):\n    def __str__(self):\n        while spin():\n            pass\n        return 'stuck'\nprint('going')\nraise Stuck()\n",
+    # ... the same with a built-in exception class carrying a student object (str(ValueError(obj)) calls obj.__str__)
+    'slow_str_builtin': "class Slow:\n    def __str__(self):\n        while spin():\n            pass\n        return 'slow'\nprint('going')\nraise ValueError(Slow())\n",
     # ends with its own exception at the last moment
     'slow_error': "a = 1\nprint('hello')\nb = a / 0\n",
 }
@@ -90,22 +92,34 @@ def make_body(programs, k_join, filtered, entry='run'):
         pname = names[ctx.choose(len(names), 'program')]
         prog = PROGRAMS[pname]
         snap = sc.GlobalState()
-        if entry in ('call', 'evaluate'):
+        if entry.split('-')[0] in ('call', 'evaluate'):
             # the same student code as the body of a function, timed out inside call('go', threaded=True)
             prog = "def go():\n" + "".join("    " + l + "\n" for l in prog.split("\n") if l)
         sb = sc.contextualize(prog, {'answer.py': prog})
         sb.allowed_time = 5
         sb.data['spin'] = _spin
         sb.data['block'] = _block
-        if entry in ('call', 'evaluate'):
+        if entry.split('-')[0] in ('call', 'evaluate'):
             sb.run()
+        if entry.endswith('-configured'):
+            # the time limit is not asked for call by call: the sandbox is configured to run threaded (as the
+            # environments do) and the module-level commands are used without a threaded= argument
+            sb.threaded = True
         n0 = len(sc.MAIN_REPORT.feedback)
         S = sched.begin(ctx, k_join, filtered)
         err = err2 = None
         first = second = final = None
         try:
             try:
-                if entry == 'call':
+                if entry.endswith('-configured'):
+                    ctx.step(entry)
+                    if entry.startswith('run'):
+                        sc.sb_cmds.run()
+                    elif entry.startswith('call'):
+                        sc.sb_cmds.call('go')
+                    else:
+                        sc.sb_cmds.evaluate('go()')
+                elif entry == 'call':
                     ctx.step("call('go', threaded=True)")
                     sb.call('go', threaded=True)
                 elif entry == 'evaluate':
@@ -151,7 +165,7 @@ def make_body(programs, k_join, filtered, entry='run'):
         for l in S.log:
             if l[0] == 'finished':
                 who_last = l[1]
-        sig_base = {'program_kind': 'stuck in its exception text' if pname == 'slow_str' else 'terminating' if pname.startswith('slow') else ('blocking' if pname == 'block' else 'looping')}
+        sig_base = {'program_kind': 'stuck in its exception text' if pname.startswith('slow_str') else 'terminating' if pname.startswith('slow') else ('blocking' if pname == 'block' else 'looping')}
         canon = repr((pname, first, second, final, leaked, repr(err)[:60], repr(err2)[:60]))
         ctx.observe(canon)
         after_timer_steps = any(l[0] in ('deliver', 'blocks forever', 'drain horizon reached') for l in S.log)
@@ -287,6 +301,12 @@ def phases(tier):
                   describe='every line of sandbox.py/timeout.py/student code is a point; busy loop; pre-emption bound 1'),
             Phase('shared-state-lines-b2', make_body(_sub('slow_error', 'block'), 18, True), bound=2, setup=_setup, chunk=150,
                   horizon_s=30, max_execs=600000, describe='points = lines touching shared state; terminating and blocking student; bound 2'),
+            Phase('configured-run-b0', make_body(PROGRAMS, 40, True, 'run-configured'), bound=0, setup=_setup, chunk=150, horizon_s=30,
+                  describe='sandbox.threaded = True and the module-level run(); every timer position, no pre-emption'),
+            Phase('configured-call-b0', make_body(PROGRAMS, 40, True, 'call-configured'), bound=0, setup=_setup, chunk=150, horizon_s=30,
+                  describe="sandbox.threaded = True and the module-level call('go'); every timer position, no pre-emption"),
+            Phase('configured-evaluate-b0', make_body(PROGRAMS, 40, True, 'evaluate-configured'), bound=0, setup=_setup, chunk=150,
+                  horizon_s=30, describe="sandbox.threaded = True and the module-level evaluate('go()'); every timer position"),
             Phase('call-entry-b1', make_body(_sub('busy', 'printing', 'block', 'slow_error', 'swallow_once'), 40, True, 'call'),
                   bound=1, setup=_setup, chunk=150, horizon_s=30, max_execs=600000,
                   describe="the time-out inside call('go', threaded=True); points = lines touching shared state; bound 1"),
